@@ -494,7 +494,7 @@ Qed.
 Lemma tags_set_entry_wf t k v t' : tags_set t k v = Some t' ->
   wf_tag_entry (k, tag_escape v) = true.
 Proof.
-  unfold tags_set, wf_tag_entry. cbn [fst snd]. intros H.
+  unfold tags_set, wf_tag_entry. cbn [fst snd]. intros H. destruct t as [m|]; [|discriminate].
   destruct (valid_tag k); [|discriminate]. cbn [negb andb] in *.
   destruct (Nat.ltb 0 (length (tag_escape v))) eqn:EL.
   - destruct (valid_tag_value (tag_escape v)) eqn:EV; [|discriminate]. apply valid_tag_value_wire. exact EV.
